@@ -82,6 +82,14 @@ class OptS(Sort):
         self.key = "Opt[%s]" % inner.key
 
 
+class UnionS(Sort):
+    """tagged union of sorts (a list whose entries are either an offset or a text)"""
+
+    def __init__(self, *alts):
+        self.alts = tuple(alts)
+        self.key = "Union[%s]" % "|".join(a.key for a in alts)
+
+
 class FunS(Sort):
     """callback: uninterpreted, pure, total function of its arguments"""
 
@@ -135,6 +143,11 @@ def z(sort):
         r = d.create()
     elif isinstance(sort, ArrS):
         r = z3.ArraySort(z(sort.k), z(sort.v))
+    elif isinstance(sort, UnionS):
+        d = z3.Datatype(_san(k).replace("|", "_or_"))
+        for i, a in enumerate(sort.alts):
+            d.declare("alt%d" % i, ("u%d" % i, z(a)))
+        r = d.create()
     elif isinstance(sort, OptS):
         d = z3.Datatype(_san(k))
         d.declare("none")
@@ -230,3 +243,17 @@ def opt_val(t):
 
 def simp(t):
     return z3.simplify(t)
+
+
+def union_inject(sort, v):
+    i = sort.alts.index(v.s)
+    return V(z(sort).constructor(i)(v.t), sort)
+
+
+def union_is(t, sort, alt):
+    return t.sort().recognizer(sort.alts.index(alt))(t)
+
+
+def union_get(t, sort, alt):
+    i = sort.alts.index(alt)
+    return t.sort().accessor(i, 0)(t)
